@@ -69,6 +69,21 @@ D = {
 "C13-5": "cpp-flex.skl yy_switch_to_buffer: REJECT state buffer growth test without YY_STATE_BUF_EXTRA_SPACE (wave 2)",
 "C15-4": "cpp-flex.skl yytbl_data_load: short read frees the table but leaves the pointer (double free in yytables_destroy) (wave 2)",
 "C17-4": "dfa.c snstods: rule_useful set for every running minimum (wave 2, variant of C17-2)",
+"C03-4": "c99-flex.skl yyread: clearerr() dropped from the EINTR retry of the stdio loop (wave 3)",
+"C08-4": "cpp-flex.skl yylex EOB CONTINUE_SCAN: `yy_bp = yytext_ptr` without YY_MORE_ADJ (yymore across a refill) (wave 3)",
+"C08-5": "c99-flex.skl yyinput: offset computed after `++yy_c_buf_p` (first byte after a refill lost) (wave 3)",
+"C08-6": "cpp-flex.skl YY_DO_BEFORE_ACTION (%array + yymore): yy_prev_more_offset saved after yy_more_offset is cleared (wave 3)",
+"C09-4": "nfa.c finish_rule: rule after a `|` action copies the previous rule's newline flag (can clear its own) (wave 3)",
+"C09-5": "cpp-flex.skl yyinput (scanner with ^ rules): yylineno bump removed (wave 3)",
+"C09-6": "cpp-flex.skl section-3 yyless: YY_LESS_LINENO moved behind the terminator write (wave 3)",
+"C10-4": "cpp-flex.skl yylex EOF branch: `yy_did_buffer_switch_on_eof = 0` moved behind the YY_NEW_FILE test (wave 3)",
+"C10-5": "cpp-flex.skl yy_get_next_buffer: `number_to_move == YY_MORE_ADJ` -> `== 0` (EOF never reported after yymore) (wave 3)",
+"C20-4": "filter.c filter_fix_linedirs: output-file test by strncmp prefix (wave 3)",
+"C20-5": "misc.c line_directive_out: backslash in the file name no longer escaped (wave 3)",
+"C07-4": "dfa.c snstods (REJECT branch): qsort only for nacc > 2 (wave 3)",
+"C07-5": "cpp-flex.skl yyreject: hold char restored after yy_cp was moved to yy_full_match (wave 3)",
+"C07-6": "main.c readin: `%option reject` override moved behind the -Cf/-CF refusal test (wave 3)",
+"C14-4": "cpp-flex.skl yy_get_next_buffer: growth realloc result kept in a temporary, failure absorbed (wave 3)",
 "C17-5": "nfa.c finish_rule: `continued_action` -> `pcont_act` in the line-number correction (wave 2)",
 
 }
